@@ -444,10 +444,21 @@ def evaluate_twin(ctx, name, tw, cfg_a, cfg_b, what):
         ctx.add_violation(path, "twin runs differ in %s at a[%d]/b[%d]" % (comp, ia, ib))
 
 def lean_obligations(ctx):
-    """build the property's Lean module, audit sources and axioms"""
+    """build the property's Lean module, audit sources and axioms — one critical section, so that a concurrently
+    running check (which may regenerate Generated.lean from another tree) cannot interleave with it"""
+    with infra.Lock("lake"):
+        # re-establish Generated.lean for THIS tree inside the critical section (another check may have rewritten it)
+        if getattr(ctx, "generated_text", None) is not None:
+            gp = os.path.join(LEAN, "RdsModel", "Generated.lean")
+            cur = open(gp).read() if os.path.exists(gp) else None
+            if cur != ctx.generated_text:
+                open(gp, "w").write(ctx.generated_text)
+        return _lean_obligations(ctx)
+
+def _lean_obligations(ctx):
     pid = ctx.pid
     module, thms = lean_info(pid)
-    ok, out, dt = infra.lake_build([module, "rdsmodel"])
+    ok, out, dt = infra.lake_build([module, "rdsmodel"], locked=True)
     ctx.cov["lake_build_s"] = round(dt, 1)
     ctx.obligations = len(thms)
     if not ok:
@@ -539,6 +550,12 @@ def run_property(pid, tier, seed):
                 infra.build_binary(cfg, "harness")
             du, dn, changed = infra.extraction(full=(tier != "quick" and pid in ("C11",)))
             ctx.cov["generated_changed"] = changed
+            ctx.generated_text = open(os.path.join(LEAN, "RdsModel", "Generated.lean")).read()
+            if du["const"].get("eccNibbleOnlyViolations", 0) > 0 and pid == "C11":
+                pi, e = du["eccbad"][0] if du["eccbad"] else (0, 0)
+                path = runner.write_replay(pid, "nibble", ["property=C11 kind=table (T1, complete sweep of all 65 536 PI values x 256 ECC): the country depends on more than the PI country nibble"], ["new", "p %d 4096 %d 0 0 0 0 0" % (pi, e)])
+                ctx.add_violation(path, "country depends on PI bits outside the nibble")
+            ctx.cov["ecc_nibble_only_sweep"] = du["const"].get("eccNibbleOnlyViolations", "not run in this tier")
         except infra.BuildError as e:
             msg = str(e)
             san = ("runtime error" in msg or "AddressSanitizer" in msg or "Sanitizer" in msg)
